@@ -189,6 +189,7 @@ func verifyFunction(P *Program, S *Specs, key string) (res *FuncResult) {
 						c.oblige("ghostframe", nil, r.guard, eq(cur, old), ct.Src, "ghost variable "+gname+" is changed but not listed under modifies")
 					}
 				}
+				c.finalObl = true
 				for _, en := range ct.Ensures {
 					env := f.specEnv(r.st, x.rootOld, nil)
 					env.withResults(fn.Signature, r.vals)
